@@ -119,7 +119,8 @@ def run_property(prop, fn, level, tier, seed, checker_cmd, explanation, assumpti
             n_known += 1
             print("KNOWN-FINDING: property=%s key=%s %s" % (prop, o["key"], known.known[k] or o["message"]))
             continue
-        safe = re.sub(r"[^A-Za-z0-9_.-]+", "_", o["key"])[:120]
+        import hashlib
+        safe = re.sub(r"[^A-Za-z0-9_.-]+", "_", o["key"])[:100] + "-" + hashlib.sha1(o["key"].encode()).hexdigest()[:8]
         path = os.path.join(VERIF, "reports", "%s-%s.json" % (prop, safe))
         with open(path, "w") as fh:
             json.dump(jsonable({"property": prop, "rule": o["rule"], "instance": o["instance"], "key": o["key"],
@@ -148,8 +149,8 @@ def run_property(prop, fn, level, tier, seed, checker_cmd, explanation, assumpti
         "distinct_nontrivial": distinct_nt,
         "rule": rule_text,
         "samples": samples[:40] or ["(none)"],
-        "obligations": total,
-        "discharged": len(oks) + n_known,
+        "obligations": total - n_known,
+        "discharged": len(oks),
         "checker_cmd": checker_cmd,
         "trusted_base": TRUSTED_BASE,
         "explanation": explanation,
